@@ -104,6 +104,15 @@ packet One {
     u16 v `é€ unicode`,
     u32 Crc @calculatedFrom("VSUM32") `sum %x of 100%`,
 }
+// every spelling of a pad character, the escapes among them: what the formatter prints must still be what the author wrote
+packet Pads {
+    @leftPad('\\x00') char[4] a `nul on the left`,
+    @rightPad('\\x00') repeat char[2] b,
+    @leftPad(' ') char[3] c,
+    @rightPad('0') char[3] d,
+    @leftPad('0') @tag(3) char[3] e,
+    zchar[5] z,
+}
 """
 
 # documentation strings that span several lines (the lexer admits line breaks inside back quotes), at every
